@@ -37,6 +37,7 @@ CONSTANTS
  UseIds = TRUE
  NodeTeardown = TRUE
  MayVanish = TRUE
+ SweepRelays = TRUE
  Aead = TRUE
  CheckIdent = TRUE
  AutoTimers = FALSE
@@ -47,6 +48,7 @@ INVARIANT ReturnIntegrity
 INVARIANT LayerDepth
 INVARIANT NoRepeatOnLinks
 INVARIANT ExitOnlyOwn
+INVARIANT NoShadow
 INVARIANT NoForeignKey
 INVARIANT KeyAgreement
 INVARIANT RelayEarlyBudget
